@@ -86,6 +86,7 @@ def build(desc, memo=None):
         off = desc.get('utcoffset_seconds')
         if off is None:
             raise Unbuildable('datetime with opaque tzinfo')
+        off = float(off)
         return datetime.datetime(2020, 1, 2, 3, 4, 5, tzinfo=_TZ(datetime.timedelta(seconds=off)))
     if k == 'obj':
         if desc.get('cls') is None:
@@ -103,6 +104,9 @@ def build(desc, memo=None):
             except AttributeError:
                 pass
         return o
+    if k == 'repattern':
+        import re
+        return re.compile(desc['pattern'])
     if k == 'func':
         return lambda *a, **kw: None
     if k == 'other':
@@ -146,6 +150,8 @@ def describe(v, depth=0, memo=None):
         return {'k': 'class', 'cls': v.__module__ + ':' + v.__qualname__}
     if isinstance(v, datetime.datetime):
         return {'k': 'datetime', 'v': v.isoformat()}
+    if type(v).__name__ == 'Pattern' and type(v).__module__ == 're':
+        return {'k': 'repattern', 'pattern': v.pattern}
     try:
         import stone.backends.python_rsrc.stone_base as bb
         if v is bb.NOT_SET:
